@@ -108,6 +108,8 @@ def gen_history(tape, max_tests=5, runs=True, tags=True, times=True, extras=True
                     cti = tape.draw("program", len(CTYPES), "content-type")
                     nch = tape.draw("payload", 5, "n-chunks")
                     base = ("D%d-é☃" % mark()).encode("utf8") if CTYPES[cti][0] == "text" else b"\xff\x00D%d" % mark()
+                    if CTYPES[cti][0] == "text" and tape.chance("payload", 1, 10, "text-detail-that-does-not-decode"):
+                        base = b"\xff\xfeD%d" % mark()     # (a log with stray bytes, attached as utf8 text)
                     chunks = []
                     for c in range(nch):
                         if tape.chance("payload", 1, 4, "empty-chunk"):
@@ -158,8 +160,8 @@ TEXT_CT = ContentType("text", "plain", {"charset": "utf8"})
 BIN_CT = ContentType("application", "octet-stream")
 
 
-# content types from the safe MIME domain: lower-case tokens, parameter values without quote,
-# backslash, CR/LF; charset without comma
+# content types: lower-case tokens, parameter values without CR/LF (one with backslashes and quotes);
+# charset without comma
 CTYPES = (
     ("text", "plain", {"charset": "utf8"}),
     ("text", "plain", {}),
@@ -170,6 +172,7 @@ CTYPES = (
     ("text", "html", {"charset": "utf8", "x": "y"}),
     ("video", "mp4", {"codecs": "avc1.42E01E, mp4a.40.2"}),
     ("text", "csv", {"delimiter": ",", "header": "x;y=z"}),
+    ("text", "x-log", {"charset": "utf8", "source": "C:\\temp\\run.log", "title": 'the "big" dump'}),
 )
 
 
